@@ -5,6 +5,7 @@
 #pragma once
 #include "run.h"
 #include <type_traits>
+#include <functional>
 
 template<class G, class Enable=void> struct HomTail { static std::vector<int> get(){ return {1}; } };
 template<class S_> struct HomTail<manif::SE_2_3<S_>> { static std::vector<int> get(){ return {1,0}; } };
@@ -126,6 +127,61 @@ template<class G> struct Pred {
       // round trips (valid whenever the relative rotation is below pi; the generator keeps it there)
       { T d = (X+t)-X; o.mat(d.coeffs()); o.mat(t.coeffs()); }
       { G Z = X+(Y-X); o.mat(Z.transform()); o.mat(Y.transform()); }
+      return true;
+    }
+    if(op=="P05" || op=="J05"){   // C05: X, Y, t, p.   P05: (analytic J, forward difference of the same scalar's function) pairs
+                                  //                    J05: the analytic Jacobians only (compared across scalars by the driver)
+      const bool fd = (op=="P05");
+      G X=mkG(c.args[0]), Y=mkG(c.args[1]); T t=mkT(c.args[2]); Vec p=vec_from<S,Vec>(c.args[3]);
+      using Jam = Eigen::Matrix<S, G::Dim, G::DoF>; using Jav = Eigen::Matrix<S, G::Dim, G::Dim>;
+      const S h = S(1)/S(1e30); S hh = h;
+      auto pg = [&](const G& Z, int i){ T d=T::Zero(); d.coeffs()(i)=hh; return Z.rplus(d); };
+      auto pt = [&](const T& z, int i){ T d=z; d.coeffs()(i)+=hh; return d; };
+      // forward differences are evaluated with two steps; where they disagree the implemented function is not differentiable at
+      // this input (it sits on one of the code's own branch thresholds, where the result jumps by ~theta^3): the pair is skipped
+      auto emit = [&](const Dyn& Ja, const std::function<Dyn()>& num){
+        o.mat(Ja); if(!fd){ o.mat(Ja); return; }
+        hh = h; Dyn N1 = num(); hh = h*S(4096); Dyn N2 = num(); hh = h;
+        S sc = S(1) + N1.cwiseAbs().maxCoeff() + Ja.cwiseAbs().maxCoeff();
+        if( !((N1-N2).cwiseAbs().maxCoeff() < S(1e-7)*sc) ) o.mat(Ja); else o.mat(N1); };
+      J ja, jb; Jam jm; Jav jv;
+      // inverse
+      { G r=X.inverse(ja); emit(ja, [&]{ Dyn N(G::DoF,G::DoF); for(int i=0;i<G::DoF;i++) N.col(i)=pg(X,i).inverse().rminus(r).coeffs()/hh; return N; }); }
+      // log
+      { T r=X.log(ja); emit(ja, [&]{ Dyn N(G::DoF,G::DoF); for(int i=0;i<G::DoF;i++) N.col(i)=(pg(X,i).log().coeffs()-r.coeffs())/hh; return N; }); }
+      // exp
+      { G r=t.exp(ja); emit(ja, [&]{ Dyn N(G::DoF,G::DoF); for(int i=0;i<G::DoF;i++) N.col(i)=pt(t,i).exp().rminus(r).coeffs()/hh; return N; }); }
+      // compose
+      { G r=X.compose(Y,ja,jb);
+        emit(ja, [&]{ Dyn N(G::DoF,G::DoF); for(int i=0;i<G::DoF;i++) N.col(i)=pg(X,i).compose(Y).rminus(r).coeffs()/hh; return N; });
+        emit(jb, [&]{ Dyn N(G::DoF,G::DoF); for(int i=0;i<G::DoF;i++) N.col(i)=X.compose(pg(Y,i)).rminus(r).coeffs()/hh; return N; }); }
+      // between
+      { G r=X.between(Y,ja,jb);
+        emit(ja, [&]{ Dyn N(G::DoF,G::DoF); for(int i=0;i<G::DoF;i++) N.col(i)=pg(X,i).between(Y).rminus(r).coeffs()/hh; return N; });
+        emit(jb, [&]{ Dyn N(G::DoF,G::DoF); for(int i=0;i<G::DoF;i++) N.col(i)=X.between(pg(Y,i)).rminus(r).coeffs()/hh; return N; }); }
+      // rplus
+      { G r=X.rplus(t,ja,jb);
+        emit(ja, [&]{ Dyn N(G::DoF,G::DoF); for(int i=0;i<G::DoF;i++) N.col(i)=pg(X,i).rplus(t).rminus(r).coeffs()/hh; return N; });
+        emit(jb, [&]{ Dyn N(G::DoF,G::DoF); for(int i=0;i<G::DoF;i++) N.col(i)=X.rplus(pt(t,i)).rminus(r).coeffs()/hh; return N; }); }
+      // lplus
+      { G r=X.lplus(t,ja,jb);
+        emit(ja, [&]{ Dyn N(G::DoF,G::DoF); for(int i=0;i<G::DoF;i++) N.col(i)=pg(X,i).lplus(t).rminus(r).coeffs()/hh; return N; });
+        emit(jb, [&]{ Dyn N(G::DoF,G::DoF); for(int i=0;i<G::DoF;i++) N.col(i)=X.lplus(pt(t,i)).rminus(r).coeffs()/hh; return N; }); }
+      // rminus
+      { T r=Y.rminus(X,ja,jb);
+        emit(ja, [&]{ Dyn N(G::DoF,G::DoF); for(int i=0;i<G::DoF;i++) N.col(i)=(pg(Y,i).rminus(X).coeffs()-r.coeffs())/hh; return N; });
+        emit(jb, [&]{ Dyn N(G::DoF,G::DoF); for(int i=0;i<G::DoF;i++) N.col(i)=(Y.rminus(pg(X,i)).coeffs()-r.coeffs())/hh; return N; }); }
+      // lminus
+      { T r=Y.lminus(X,ja,jb);
+        emit(ja, [&]{ Dyn N(G::DoF,G::DoF); for(int i=0;i<G::DoF;i++) N.col(i)=(pg(Y,i).lminus(X).coeffs()-r.coeffs())/hh; return N; });
+        emit(jb, [&]{ Dyn N(G::DoF,G::DoF); for(int i=0;i<G::DoF;i++) N.col(i)=(Y.lminus(pg(X,i)).coeffs()-r.coeffs())/hh; return N; }); }
+      // act
+      { Vec r=X.act(p,jm,jv);
+        emit(jm, [&]{ Dyn N(G::Dim,G::DoF); for(int i=0;i<G::DoF;i++) N.col(i)=(pg(X,i).act(p)-r)/hh; return N; });
+        emit(jv, [&]{ Dyn N(G::Dim,G::Dim); for(int i=0;i<G::Dim;i++){ Vec q=p; q(i)+=hh; N.col(i)=(X.act(q)-r)/hh; } return N; }); }
+      // tangent plus / minus
+      { T s2 = t*S(2); T r=t.plus(s2,ja,jb); o.mat(ja); o.mat(J(J::Identity())); o.mat(jb); o.mat(J(J::Identity()));
+        r=t.minus(s2,ja,jb); o.mat(ja); o.mat(J(J::Identity())); o.mat(jb); o.mat(J(-J::Identity())); }
       return true;
     }
     return false;
